@@ -1111,12 +1111,34 @@ Definition case_ok (cs : c09case) : Prop :=
   | KStats sorted hasw xs ws o => stats_ok sorted hasw xs ws o
   | KHist sorted hasw xs ws ops => hist_ok [mkSample xs (ows hasw ws) sorted] ops
   | KVec v => vec_ok v
+  | KSteps steps => Forall (fun st => let '(sorted, hasw, xs, ws, o) := st in stats_ok sorted hasw xs ws o) steps
   end.
+
+(* kind 3: every step of an accepted in-place history satisfies the kind-0 specification for the contents current at
+   that step (the backing arrays are the same storage throughout: the harness overwrites them in place) *)
+Lemma run_steps_sound : forall steps i tag c tag' pos diag,
+  run_steps steps i tag = verdict c tag' pos diag -> (c = 0 \/ c = 1)%Z ->
+  c = 0%Z /\ Forall (fun st => let '(sorted, hasw, xs, ws, o) := st in stats_ok sorted hasw xs ws o) steps.
+Proof.
+  induction steps as [|[[[[sorted hasw] xs] ws] o] rest IH]; intros i tag c tag' pos diag V Hc; cbn [run_steps] in V.
+  - apply verdict_inj in V. destruct V as [V _]. unfold V_OK in V. split; [lia | constructor].
+  - destruct (negb (sample_ok sorted hasw xs ws)) eqn:G; [bad_verdict V|]. apply Bool.negb_false_iff in G.
+    destruct (check_stats sorted hasw xs ws o) as [|code [|t [|p d]]] eqn:E; try (bad_verdict V).
+    cbv zeta in V. destruct (code =? 0)%Z eqn:C0.
+    + apply Z.eqb_eq in C0. subst code. destruct (IH _ _ _ _ _ _ V Hc) as [Ec F]. split; [exact Ec|].
+      constructor; [|exact F]. eapply (check_stats_sound sorted hasw xs ws o 0%Z t p d G); [exact E | left; reflexivity].
+    + apply Z.eqb_neq in C0. apply verdict_inj in V. destruct V as [V _]. subst c.
+      (* an accepted code 1 is never produced by check_stats *)
+      exfalso. unfold check_stats in E. cbv zeta in E.
+      match type of E with (match xs with [] => match ?r with _ => _ end | _ => _ end) = _ => destruct r end;
+        destruct xs; unfold verdict in E; injection E as E _; unfold V_OK, V_MISMATCH in E; lia.
+Qed.
+
 
 Theorem check_case_sound cs c tag pos diag :
   check_case cs = verdict c tag pos diag -> (c = 0 \/ c = 1)%Z -> c = 0%Z /\ case_ok cs.
 Proof.
-  intros V Hc. destruct cs as [sorted hasw xs ws o | sorted hasw xs ws ops | v]; cbn [check_case case_ok] in *.
+  intros V Hc. destruct cs as [sorted hasw xs ws o | sorted hasw xs ws ops | v | steps]; cbn [check_case case_ok] in *.
   - destruct (negb (sample_ok sorted hasw xs ws)) eqn:G; [bad_verdict V|]. breflect.
     split; [|eapply check_stats_sound; eassumption].
     unfold check_stats in V. cbv zeta in V.
@@ -1142,6 +1164,7 @@ Proof.
     + exact G2.
   - destruct (check_vec v) as [ok d] eqn:E. destruct ok; [|bad_verdict V].
     apply verdict_inj in V. destruct V as [V _]. split; [unfold V_OK in V; lia|]. eapply check_vec_sound; exact E.
+  - eapply run_steps_sound; eassumption.
 Qed.
 
 Theorem check_ok_sound line cs c tag pos diag :
